@@ -25,6 +25,8 @@ CONSTANTS Callers,      \* set of caller (goroutine) ids
           FixLeft,      \* TRUE: Left() = -1 when the tail is unknown (repaired); FALSE: left + leftAfter as shipped
           Recheck,      \* TRUE: re-check "somebody started next before us" after Lock (as coded)
           UnlClamp,     \* TRUE: an unlimited part never hands out an instant before its own start (repaired)
+          FixNoShift,   \* TRUE: Left() of a composite that was never started does not shift (repaired); FALSE: as shipped,
+                        \*       NewComposite's own Left() probe of a nested composite could start its parts
           Ops,          \* subset of {"N","L"}: which root operations callers may issue
           StartModes    \* subset of {"lazy","explicit"}
 
@@ -43,10 +45,13 @@ VARIABLES tree,     \* the tree under test (chosen in Init, never changes)
           observedEnd, \* ghost: some caller saw Next !ok or Left = 0 at the root
           viol,     \* ghost: set of violated property names
           lastRet,  \* ghost: [caller -> last root-level result, <<"N", tx, ok>> or <<"L", r>>]
-          hist      \* history of steps (export only; hidden by VIEW)
+          hist,     \* history of steps (export only; hidden by VIEW)
+          cst,      \* composite state: [node -> BOOLEAN] Start() or Next() has been called on it (compositeSchedule.started)
+          probes,   \* construction phase: nested composites whose Left() NewComposite still has to call (in its order)
+          probing   \* construction phase: a probe is in flight
 
-vars == <<tree, L, head, readers, writer, now, stack, ncalls, lastT, finT, snap, fired, observedEnd, viol, lastRet, hist>>
-view == <<tree, L, head, readers, writer, now, stack, ncalls, lastT, finT, snap, fired, observedEnd, viol>>
+vars == <<tree, L, head, readers, writer, now, stack, ncalls, lastT, finT, snap, fired, observedEnd, viol, lastRet, hist, cst, probes, probing>>
+view == <<tree, L, head, readers, writer, now, stack, ncalls, lastT, finT, snap, fired, observedEnd, viol, cst, probes, probing>>
 
 Nodes    == 1..Len(tree.kind)
 Kind(n)  == tree.kind[n]
@@ -70,7 +75,7 @@ CLeft(t, n) ==
     ELSE IF t.kind[n] = "unl" THEN -1
     ELSE LET left == CLeft(t, t.kids[n][1])
              la   == LAfter(t, n, 1)
-         IN  IF left = 0 THEN la      \* (la < 0 would shift at construction time: excluded from the catalogue)
+         IN  IF left = 0 THEN la      \* (la < 0: -1; the repaired Left() does not shift a composite that was never started)
              ELSE IF left < 0 THEN -1
              ELSE IF la < 0 THEN (IF FixLeft THEN -1 ELSE left + la)
              ELSE left + la
@@ -123,6 +128,21 @@ SetTop(c, f) == [stack EXCEPT ![c] = Append(Rest(c), f)]
 SchedsLeft(n) == Len(Kids(n)) - head[n] + 1
 Cur(n) == Kids(n)[head[n]]
 
+\* construction phase (NewComposite probes Left() of every part; only composite parts can have side effects)
+InCtor == probes # <<>> \/ probing
+RECURSIVE ProbeSeq(_, _)
+ProbeSeq(t, n) ==
+    IF t.kind[n] # "comp" THEN <<>>
+    ELSE LET ks == t.kids[n]
+             RECURSIVE Build(_), Rev(_)
+             Build(k) == IF k > Len(ks) THEN <<>> ELSE ProbeSeq(t, ks[k]) \o Build(k + 1)     \* parts are built first, in order
+             Rev(k)   == IF k < 1 THEN <<>>                                                  \* then probed last to first
+                         ELSE (IF t.kind[ks[k]] = "comp" THEN <<ks[k]>> ELSE <<>>) \o Rev(k - 1)
+         IN  Build(1) \o Rev(Len(ks))
+\* composites whose Start() runs when Start() is called on node m (a composite starts its current first part)
+RECURSIVE StartChain(_, _)
+StartChain(m, hd) == IF IsLeaf(m) THEN {} ELSE {m} \cup StartChain(Kids(m)[hd[m]], hd)
+
 
 \* root-level completion of a call: ghosts for the contract
 RootNextDone(c, tx, ok, Lnew) ==
@@ -155,11 +175,17 @@ RetNext(c, tx, ok) ==
          /\ UNCHANGED <<lastT, finT, snap, fired, observedEnd, viol, lastRet>>
 
 RetLeft(c, r) ==
-    IF Len(stack[c]) = 1
+    IF Len(stack[c]) = 1 /\ probing
+    THEN \* the constructor's probe returns: the value only feeds leftAfter (static, see LAfter)
+         /\ stack' = [stack EXCEPT ![c] = <<>>]
+         /\ probing' = FALSE
+         /\ UNCHANGED <<lastT, finT, snap, fired, observedEnd, viol, lastRet>>
+    ELSE IF Len(stack[c]) = 1
     THEN /\ stack' = [stack EXCEPT ![c] = <<>>]
          /\ RootLeftDone(c, r, snap[c])
-         /\ UNCHANGED snap
-    ELSE /\ stack' = [stack EXCEPT ![c] = LET s == Rest(c) IN
+         /\ UNCHANGED <<snap, probing>>
+    ELSE /\ UNCHANGED probing
+         /\ stack' = [stack EXCEPT ![c] = LET s == Rest(c) IN
                          [s EXCEPT ![Len(s)] = [@ EXCEPT !.left = r]]]
          /\ UNCHANGED <<lastT, finT, snap, fired, observedEnd, viol, lastRet>>
 
@@ -169,7 +195,8 @@ RetLeft(c, r) ==
 Idle(c) == stack[c] = <<>>
 
 CallNext(c) ==
-    /\ "N" \in Ops /\ Idle(c) /\ ncalls[c] < MaxCalls
+    /\ "N" \in Ops /\ Idle(c) /\ ncalls[c] < MaxCalls /\ ~InCtor
+    /\ cst' = IF IsLeaf(Root) THEN cst ELSE [cst EXCEPT ![Root] = TRUE]      \* s.started.Store(true)
     /\ ncalls' = [ncalls EXCEPT ![c] = @ + 1]
     /\ IF IsLeaf(Root)
        THEN LET r == LeafNext(Root) IN
@@ -179,9 +206,10 @@ CallNext(c) ==
        ELSE /\ stack' = [stack EXCEPT ![c] = <<Frame(Root, "N", "rlock")>>]
             /\ UNCHANGED <<L, lastT, finT, snap, fired, observedEnd, viol, lastRet>>
     /\ UNCHANGED <<tree, head, readers, writer, now>>
+    /\ UNCHANGED <<probes, probing>>
 
 CallLeft(c) ==
-    /\ "L" \in Ops /\ Idle(c) /\ ncalls[c] < MaxCalls
+    /\ "L" \in Ops /\ Idle(c) /\ ncalls[c] < MaxCalls /\ ~InCtor
     /\ ncalls' = [ncalls EXCEPT ![c] = @ + 1]
     /\ IF IsLeaf(Root)
        THEN /\ RootLeftDone(c, LeafLeft(Root), Remaining)
@@ -189,6 +217,7 @@ CallLeft(c) ==
        ELSE /\ stack' = [stack EXCEPT ![c] = <<Frame(Root, "L", "l_rlock")>>]
             /\ UNCHANGED <<lastT, finT, snap, fired, observedEnd, viol, lastRet>>
     /\ UNCHANGED <<tree, L, head, readers, writer, now>>
+    /\ UNCHANGED <<cst, probes, probing>>
 
 -----------------------------------------------------------------------------
 (* compositeSchedule.Next *)
@@ -201,6 +230,7 @@ NRLock(c) ==
        /\ readers' = [readers EXCEPT ![n] = @ \cup {c}]
        /\ stack' = SetTop(c, [Top(c) EXCEPT !.pc = "child"])
     /\ UNCHANGED <<tree, L, head, writer, now, ncalls, lastT, finT, snap, fired, observedEnd, viol, lastRet>>
+    /\ UNCHANGED <<cst, probes, probing>>
 
 \* tx, ok = s.scheds[0].Next()   (three call sites: under RLock, and twice under Lock)
 ChildNextPc == {"child", "wchild1", "wchild2", "l_wchild"}
@@ -214,10 +244,13 @@ NChild(c) ==
           THEN LET r == LeafNext(ch) IN
                /\ L' = [L EXCEPT ![ch] = r[1]]
                /\ stack' = SetTop(c, [f EXCEPT !.pc = ContPc(f.pc), !.tx = r[2], !.ok = r[3]])
+               /\ UNCHANGED cst
           ELSE /\ stack' = [stack EXCEPT ![c] = Append(Append(Rest(c), [f EXCEPT !.pc = ContPc(f.pc)]),
                                                         Frame(ch, "N", "rlock"))]
+               /\ cst' = [cst EXCEPT ![ch] = TRUE]                            \* s.started.Store(true) on entry
                /\ UNCHANGED L
     /\ UNCHANGED <<tree, head, readers, writer, now, ncalls, lastT, finT, snap, fired, observedEnd, viol, lastRet>>
+    /\ UNCHANGED <<probes, probing>>
 
 \* after the child's Next under the read lock: RUnlock, then return or go for the write lock
 NGot(c) ==
@@ -231,6 +264,7 @@ NGot(c) ==
              ELSE /\ stack' = SetTop(c, [f EXCEPT !.pc = "lock", !.sl = sl])
                   /\ UNCHANGED <<lastT, finT, snap, fired, observedEnd, viol, lastRet>>
     /\ UNCHANGED <<tree, L, head, writer, now, ncalls>>
+    /\ UNCHANGED <<cst, probes, probing>>
 
 \* startNext(t): shift and Start the new current schedule at t (Start on a composite starts its first leaf)
 StartNextEffect(n, t) ==
@@ -240,6 +274,7 @@ StartNextEffect(n, t) ==
         FL(m) == IF IsLeaf(m) THEN m ELSE FL(Kids(m)[h2[m]])
         lf   == FL(ch)
     IN  /\ head' = h2
+        /\ cst' = [m \in DOMAIN cst |-> cst[m] \/ m \in StartChain(ch, h2)]
         /\ L' = [L EXCEPT ![lf] = [@ EXCEPT !.startd = TRUE, !.st = t, !.fin = t + Dur(lf)]]
         /\ viol' = viol \cup (IF L[lf].startd THEN {"DoubleStartPanic"} ELSE {})
 
@@ -253,15 +288,16 @@ NLock(c) ==
           /\ writer' = [writer EXCEPT ![n] = c]
           /\ IF Recheck /\ sln < f.sl
              THEN /\ stack' = SetTop(c, [f EXCEPT !.pc = "wchild1", !.sln = sln])
-                  /\ UNCHANGED <<L, head, viol>>
+                  /\ UNCHANGED <<L, head, viol, cst>>
              ELSE IF sln = 1
                   THEN \* only reachable without the re-check: startNext would index past the end
                        /\ viol' = viol \cup {"StartNextPastEnd"}
                        /\ stack' = SetTop(c, [f EXCEPT !.pc = "wgot1", !.sln = 1, !.ok = FALSE])
-                       /\ UNCHANGED <<L, head>>
+                       /\ UNCHANGED <<L, head, cst>>
                   ELSE /\ StartNextEffect(n, f.tx)
                        /\ stack' = SetTop(c, [f EXCEPT !.pc = "wchild2", !.sln = sln])
     /\ UNCHANGED <<tree, readers, now, ncalls, lastT, finT, snap, fired, observedEnd, lastRet>>
+    /\ UNCHANGED <<probes, probing>>
 
 \* Unlock after the "somebody started next" branch
 NWGot1(c) ==
@@ -274,6 +310,7 @@ NWGot1(c) ==
              ELSE /\ stack' = SetTop(c, [f EXCEPT !.pc = "rlock"])      \* return s.Next()
                   /\ UNCHANGED <<lastT, finT, snap, fired, observedEnd, viol, lastRet>>
     /\ UNCHANGED <<tree, L, head, readers, now, ncalls>>
+    /\ UNCHANGED <<cst, probes, probing>>
 
 \* Unlock after startNext + Next
 NWGot2(c) ==
@@ -286,6 +323,7 @@ NWGot2(c) ==
                   /\ UNCHANGED <<lastT, finT, snap, fired, observedEnd, viol, lastRet>>
              ELSE RetNext(c, f.tx, f.ok)
     /\ UNCHANGED <<tree, L, head, readers, now, ncalls>>
+    /\ UNCHANGED <<cst, probes, probing>>
 
 -----------------------------------------------------------------------------
 (* compositeSchedule.Left *)
@@ -297,6 +335,7 @@ LRLock(c) ==
        /\ readers' = [readers EXCEPT ![n] = @ \cup {c}]
        /\ stack' = SetTop(c, [Top(c) EXCEPT !.pc = "l_child"])
     /\ UNCHANGED <<tree, L, head, writer, now, ncalls, lastT, finT, snap, fired, observedEnd, viol, lastRet>>
+    /\ UNCHANGED <<cst, probes, probing>>
 
 \* schedsLeft, leftAfter[0], left = s.scheds[0].Left()  (under the read lock)
 LChild(c) ==
@@ -311,6 +350,7 @@ LChild(c) ==
           ELSE /\ stack' = [stack EXCEPT ![c] = Append(Append(Rest(c), g), Frame(ch, "L", "l_rlock"))]
                /\ UNCHANGED snap
     /\ UNCHANGED <<tree, L, head, readers, writer, now, ncalls, lastT, finT, fired, observedEnd, viol, lastRet>>
+    /\ UNCHANGED <<cst, probes, probing>>
 
 LGot(c) ==
     /\ ~Idle(c) /\ Top(c).pc = "l_got"
@@ -320,12 +360,14 @@ LGot(c) ==
           /\ IF f.sl = 1 THEN RetLeft(c, f.left)
              ELSE IF f.left = 0
                   THEN IF f.la >= 0 THEN RetLeft(c, f.la)
+                       ELSE IF FixNoShift /\ ~cst[n] THEN RetLeft(c, -1)     \* never started: nothing can be finished
                        ELSE /\ stack' = SetTop(c, [f EXCEPT !.pc = "l_lock"])
-                            /\ UNCHANGED <<lastT, finT, snap, fired, observedEnd, viol, lastRet>>
+                            /\ UNCHANGED <<lastT, finT, snap, fired, observedEnd, viol, lastRet, probing>>
              ELSE IF f.left < 0 THEN RetLeft(c, -1)
              ELSE IF f.la < 0 /\ FixLeft THEN RetLeft(c, -1)
              ELSE RetLeft(c, f.left + f.la)
     /\ UNCHANGED <<tree, L, head, writer, now, ncalls>>
+    /\ UNCHANGED <<cst, probes>>
 
 \* s.rwMu.Lock(); if nobody shifted meanwhile: Next() on the finished current, startNext
 LLock(c) ==
@@ -336,6 +378,7 @@ LLock(c) ==
           /\ writer' = [writer EXCEPT ![n] = c]
           /\ stack' = SetTop(c, [f EXCEPT !.pc = IF SchedsLeft(n) = f.sl THEN "l_wchild" ELSE "l_unlock"])
     /\ UNCHANGED <<tree, L, head, readers, now, ncalls, lastT, finT, snap, fired, observedEnd, viol, lastRet>>
+    /\ UNCHANGED <<cst, probes, probing>>
 
 LWGot(c) ==
     /\ ~Idle(c) /\ Top(c).pc = "l_wgot"
@@ -344,10 +387,11 @@ LWGot(c) ==
        IN IF f.ok
           THEN /\ viol' = viol \cup {"LeftShiftPanic"}       \* panic("current schedule is not finished")
                /\ stack' = SetTop(c, [f EXCEPT !.pc = "l_unlock"])
-               /\ UNCHANGED <<L, head>>
+               /\ UNCHANGED <<L, head, cst>>
           ELSE /\ StartNextEffect(n, f.tx)
                /\ stack' = SetTop(c, [f EXCEPT !.pc = "l_unlock"])
     /\ UNCHANGED <<tree, readers, writer, now, ncalls, lastT, finT, snap, fired, observedEnd, lastRet>>
+    /\ UNCHANGED <<probes, probing>>
 
 LUnlock(c) ==
     /\ ~Idle(c) /\ Top(c).pc = "l_unlock"
@@ -355,13 +399,33 @@ LUnlock(c) ==
        /\ writer' = [writer EXCEPT ![f.node] = "none"]
        /\ stack' = SetTop(c, [f EXCEPT !.pc = "l_rlock"])             \* return s.Left()
     /\ UNCHANGED <<tree, L, head, readers, now, ncalls, lastT, finT, snap, fired, observedEnd, viol, lastRet>>
+    /\ UNCHANGED <<cst, probes, probing>>
 
 -----------------------------------------------------------------------------
 
-Tick == /\ now < MaxNow
+Tick == /\ now < MaxNow /\ ~InCtor
         /\ now' = now + 1
         /\ hist' = Append(hist, [c |-> "clock", a |-> "Tick", node |-> 0, pc |-> "", depth |-> 0, ret |-> <<>>])
-        /\ UNCHANGED <<tree, L, head, readers, writer, stack, ncalls, lastT, finT, snap, fired, observedEnd, viol, lastRet>>
+        /\ UNCHANGED <<tree, L, head, readers, writer, stack, ncalls, lastT, finT, snap, fired, observedEnd, viol, lastRet, cst, probes, probing>>
+
+\* NewComposite calls Left() on the next nested composite (sequentially, before anybody else can use the tree)
+\* The last entry, 0, is the explicit root.Start(t0 = 0) of start mode "explicit" (after construction, before any call).
+CtorProbe ==
+    /\ probes # <<>> /\ ~probing
+    /\ probes' = Tail(probes)
+    /\ IF Head(probes) = 0
+       THEN LET RECURSIVE FL0(_)
+                FL0(m) == IF IsLeaf(m) THEN m ELSE FL0(Kids(m)[head[m]])
+                lf == FL0(Root)
+            IN  /\ L' = [L EXCEPT ![lf] = [@ EXCEPT !.startd = TRUE, !.st = 0, !.fin = Dur(lf)]]
+                /\ cst' = [m \in DOMAIN cst |-> cst[m] \/ m \in StartChain(Root, head)]
+                /\ viol' = viol \cup (IF L[lf].startd THEN {"DoubleStartPanic"} ELSE {})
+                /\ UNCHANGED <<stack, probing>>
+       ELSE /\ LET c == CHOOSE x \in Callers : TRUE IN
+               stack' = [stack EXCEPT ![c] = <<Frame(Head(probes), "L", "l_rlock")>>]
+            /\ probing' = TRUE
+            /\ UNCHANGED <<L, cst, viol>>
+    /\ UNCHANGED <<tree, head, readers, writer, now, ncalls, lastT, finT, snap, fired, observedEnd, lastRet, hist>>
 
 \* the unlabelled step relation (hist is assigned by the labelled wrapper below)
 Acts == <<"CallNext", "CallLeft", "NRLock", "NChild", "NGot", "NLock", "NWGot1", "NWGot2",
@@ -375,7 +439,8 @@ Act(c, a) == CASE a = "CallNext" -> CallNext(c) [] a = "CallLeft" -> CallLeft(c)
 \* history entry: who, which action, on which node / at which pc it started, and the root-level result if
 \* this step completed a root call
 Lab(c, a) ==
-    hist' = Append(hist, [c |-> c, a |-> a,
+    hist' = IF InCtor THEN hist ELSE
+            Append(hist, [c |-> c, a |-> a,
                           node |-> IF Idle(c) THEN 0 ELSE Top(c).node,
                           pc |-> IF Idle(c) THEN "idle" ELSE Top(c).pc,
                           depth |-> Len(stack[c]),
@@ -384,7 +449,13 @@ Lab(c, a) ==
 Step(c) == \E i \in 1..Len(Acts) : Act(c, Acts[i]) /\ Lab(c, Acts[i])
 StepNoHist(c) == \E i \in 1..Len(Acts) : Act(c, Acts[i])
 
-Next == Tick \/ \E c \in Callers : Step(c)
+Next == Tick \/ CtorProbe \/ \E c \in Callers : Step(c)
+
+\* explicit Start(t0) on the root reaches every composite on the way to the first leaf
+InitStartChain(t) ==
+    LET RECURSIVE SC0(_)
+        SC0(m) == IF t.kind[m] # "comp" THEN {} ELSE {m} \cup SC0(t.kids[m][1])
+    IN  SC0(1)
 
 InitLeaf(t, n, mode) ==
     \* explicit Start(t0 = 0) reaches the first leaf only; the others start when their turn comes
@@ -396,7 +467,7 @@ InitLeaf(t, n, mode) ==
 
 Init == /\ \E t \in Trees, m \in StartModes :
              tree = [kind |-> t.kind, kids |-> t.kids, toks |-> t.toks, dur |-> t.dur, mode |-> m]
-        /\ L = [n \in {m \in 1..Len(tree.kind) : tree.kind[m] # "comp"} |-> InitLeaf(tree, n, tree.mode)]
+        /\ L = [n \in {m \in 1..Len(tree.kind) : tree.kind[m] # "comp"} |-> InitLeaf(tree, n, "lazy")]
         /\ head = [n \in {m \in 1..Len(tree.kind) : tree.kind[m] = "comp"} |-> 1]
         /\ readers = [n \in {m \in 1..Len(tree.kind) : tree.kind[m] = "comp"} |-> {}]
         /\ writer = [n \in {m \in 1..Len(tree.kind) : tree.kind[m] = "comp"} |-> "none"]
@@ -411,6 +482,9 @@ Init == /\ \E t \in Trees, m \in StartModes :
         /\ viol = {}
         /\ lastRet = [c \in Callers |-> <<>>]
         /\ hist = <<>>
+        /\ cst = [n \in {m \in 1..Len(tree.kind) : tree.kind[m] = "comp"} |-> FALSE]
+        /\ probes = ProbeSeq(tree, 1) \o (IF tree.mode = "explicit" THEN <<0>> ELSE <<>>)
+        /\ probing = FALSE
 
 Spec == Init /\ [][Next]_vars
 
